@@ -131,6 +131,7 @@ class Func:
     result_docs: list = field(default_factory=list)   # [(name or '', type or None, text)]
     example: str = ""
     setter: bool = False           # a property that also has a setter (mypy: an overloaded definition without implementation)
+    deleter: bool = False          # a property with a deleter (and no setter unless setter is set)
 
 
 @dataclass
@@ -320,6 +321,8 @@ def func_src(f: Func, style: str, indent: str, in_class: bool) -> str:
     if in_class and f.deco == "prop" and f.setter:
         out += f"\n{indent}@{f.name}.setter\n{indent}def {f.name}(self, value{': ' + f.ret.src() if f.ret is not None else ''}) -> None:\n"
         out += f"{indent}    pass\n"
+    if in_class and f.deco == "prop" and f.deleter:
+        out += f"\n{indent}@{f.name}.deleter\n{indent}def {f.name}(self) -> None:\n{indent}    pass\n"
     return out
 
 
@@ -395,7 +398,7 @@ def package_files(p: Package) -> dict[str, str]:
         text = (f'"""{i.doc}"""\n' if i.doc else "") + "\n".join(i.lines) + ("\n" if i.lines else "")
         files[i.path] = text
     for m in p.modules:
-        files[m.path] = module_src(m, p.style)
+        files[m.path] = module_src(m, p.style) + getattr(m, "extra_source", "")
     return files
 
 
@@ -426,6 +429,24 @@ class Names:
 
 
 BASE_ANN = ["int", "str", "bool", "float"]
+RICH_DOC_TYPES = ["int | 0 | None", "int | str | None", "int | ... | str", "str | bool | int | None", "list[int] | None",
+                  "1 | int | 2 | None", "int or str or None", "list[int]", "dict[str, int]", "tuple[int, str]", "Optional[int]"]
+PARAMSPEC_SOURCE = '''
+
+from typing import ParamSpec, TypeVarTuple, Unpack
+
+
+PS_{k} = ParamSpec("PS_{k}")
+TS_{k} = TypeVarTuple("TS_{k}")
+
+
+def logged_{k}(fn: Callable[PS_{k}, int]) -> Callable[PS_{k}, int]:
+    return fn
+
+
+def pack_{k}(*args: Unpack[TS_{k}]) -> tuple[Unpack[TS_{k}]]:
+    return args
+'''
 
 
 def gen_ann(rng: random.Random, depth: int, refs: list[Ann], allow_none_top=True, tvs: list[str] | None = None) -> Ann:
@@ -579,7 +600,12 @@ def gen_inferred_body(rng: random.Random, depth: int = 2):
         return f"return {s}"
 
     def block(d, ind):
-        k = rng.choice(["ret", "if", "ifelse", "try", "while", "for", "with", "match", "tc", "platform"]) if d > 0 else "ret"
+        k = rng.choice(["ret", "if", "ifelse", "try", "while", "for", "with", "match", "tc", "platform", "ifloop"]) if d > 0 else "ret"
+        if k == "ifloop":
+            # every branch ends in a return, but the loop may run zero times: the return after the statement is reachable
+            head = rng.choice(["for _i in range(a):", "while a:", "with open('x') as _f:"])
+            return ([ind + "if a:", ind + "    " + head] + block(0, ind + "        ") + [ind + "else:"] + block(0, ind + "    ")
+                    + block(0, ind))
         if k == "ret":
             return [ind + ret_stmt()]
         if k == "if":
@@ -619,6 +645,7 @@ def gen_func(rng, names: Names, refs, tvs, *, private=False, deco="plain", docs=
         f.ret = gen_ann(rng, 1, refs)
         f.body = "..."
         f.setter = rng.random() < 0.4
+        f.deleter = rng.random() < (0.2 if f.setter else 0.3)
     elif r < infer_prob:
         rest = [p for p in f.params if p.name != "a"]
         f.params = [Param("a", "posonly" if any(p.kind == "posonly" for p in rest) else "pos", Ann("int"))] + rest
@@ -651,7 +678,10 @@ def gen_func(rng, names: Names, refs, tvs, *, private=False, deco="plain", docs=
                 p.doc = f"About {p.name}."
             if r < 0.35:
                 # same as the hint, different from the hint, or a docstring type without any hint
-                if p.ann is not None and p.ann.kind in BASE_ANN and rng.random() < 0.5:
+                if doc_types == "rich" and rng.random() < 0.5:
+                    # unions of three and more alternatives, with plain values among them, optional markers, containers
+                    p.doc_type = rng.choice(RICH_DOC_TYPES)
+                elif p.ann is not None and p.ann.kind in BASE_ANN and rng.random() < 0.5:
                     p.doc_type = p.ann.kind
                 else:
                     p.doc_type = rng.choice(BASE_ANN)
@@ -661,7 +691,9 @@ def gen_func(rng, names: Names, refs, tvs, *, private=False, deco="plain", docs=
             for k, a in enumerate(f.ret.args):
                 r = rng.random()
                 t = (a.kind if a.kind in BASE_ANN and r < 0.2 else rng.choice(BASE_ANN)) if r < 0.55 else "a short piece of text"
-                f.result_docs.append((f"res_{k}_{f.name}", t, f"Result {k} of {f.name}."))
+                # now and then an entry without a name (numpydoc: only the type line)
+                rname = "" if (t in BASE_ANN and rng.random() < 0.3) else f"res_{k}_{f.name}"
+                f.result_docs.append((rname, t, f"Result {k} of {f.name}."))
         elif deco != "prop" and rng.random() < 0.4 and (f.ret is not None and f.ret.kind != "tuple" or (f.ret is None and not f.ret_none and f.inferred is None)):
             t = f.ret.kind if (f.ret is not None and f.ret.kind in BASE_ANN and rng.random() < 0.5) else rng.choice(BASE_ANN)
             f.result_docs = [("", t, f"Result of {f.name}.")]
@@ -722,10 +754,10 @@ def gen_class(rng, names: Names, refs, tvs, *, private=False, depth=1, docs=True
 
 
 def gen_package(rng: random.Random, idx: int, *, style="plaintext", nmods=3, reexports=True, subpackage=True, keywords=False,
-                docs=True, cross_refs=True, private_bases=True, doc_types=False, generics=True, reuse=True) -> Package:
+                docs=True, cross_refs=True, private_bases=True, doc_types=False, generics=True, reuse=True, private_root=False) -> Package:
     tag = f"q{idx}"
     names = Names(rng, tag)
-    root = f"pkg{tag}"
+    root = f"_pkg{tag}" if private_root else f"pkg{tag}"
     mods: list[Module] = []
     inits = [Init(f"{root}/__init__.py", root)]
     dirs = [(root, root)]
@@ -879,6 +911,21 @@ def gen_package(rng: random.Random, idx: int, *, style="plaintext", nmods=3, ree
                 else:
                     init.lines.append(f"from .{modname} import {f.name}")
                     init.reexports.append(("name", m.dotted, f.name, None))
+    # a private function re-exported under a public alias, in a module that also has a class with a private method of the
+    # same name (the method stays private, the function becomes public through the alias)
+    if reexports and rng.random() < 0.3:
+        cands = [m for m in mods if m.classes and not any(seg.startswith("_") for seg in m.dotted.split(".")[1:-1])]
+        if cands:
+            m = rng.choice(cands)
+            pkg_dotted = m.dotted.rsplit(".", 1)[0]
+            init = next(i for i in inits if i.dotted == pkg_dotted)
+            modname = m.dotted.rsplit(".", 1)[1]
+            pname = "_" + names.fresh("func")
+            alias = names.fresh("func")
+            m.funcs.append(Func(pname, [], ret=Ann("int")))
+            m.classes[-1].methods.append(Func(pname, [], ret=Ann("int")))
+            init.lines.append(f"from .{modname} import {pname} as {alias}")
+            init.reexports.append(("alias", m.dotted, pname, alias))
     # a simple class re-exported by two packages of different depth (the deeper one has the shorter path string) and
     # referenced from another module
     if reexports and subpackage and rng.random() < 0.5 and len(mods) >= 2:
@@ -956,4 +1003,12 @@ def gen_package(rng: random.Random, idx: int, *, style="plaintext", nmods=3, ree
                   methods=[Func(names.fresh("func"), [], ret=Ann("int"))])
         user.classes.append(sub)
         mods.append(user)
+        # a second user imports, before the base itself, a class whose name ends with the base's name
+        ma.classes.append(Cls("Abstract" + bname, methods=[Func(names.fresh("func"), [], ret=Ann("int"))]))
+        uname2 = names.fresh("mod").lstrip("_")
+        user2 = Module(f"{udir}/{uname2}.py", f"{ma.dotted.rsplit('.', 1)[0]}.{uname2}")
+        user2.imports.append(f"from {ma.dotted} import Abstract{bname}, {bname}")
+        user2.classes.append(Cls(names.fresh("cls"), bases=[bname], base_refs=[(bname, ma.dotted, False)],
+                                 methods=[Func(names.fresh("func"), [], ret=Ann("int"))]))
+        mods.append(user2)
     return Package(root, mods, inits, style)
